@@ -191,6 +191,9 @@ pub fn cap_run(case: &Case, deadline: bool, sched: Sched) -> Result<CapOut, Stri
                 if deadline {
                     cfg.deadline(instant_at(DL));
                 }
+                // the `TextDiff::from_*` shortcuts stand for the default
+                // configuration (Myers, no deadline)
+                let shortcut = !deadline && alg == similar::Algorithm::Myers && case.script_seed & 2 == 2;
                 macro_rules! finish {
                     ($diff:expr) => {{
                         let diff = $diff;
@@ -226,6 +229,15 @@ pub fn cap_run(case: &Case, deadline: bool, sched: Sched) -> Result<CapOut, Stri
                     };
                     let (ob, nb) = (&ob[..], &nb[..]);
                     match case.entry {
+                        _ if shortcut => match case.entry {
+                            CapEntry::TextLines => finish!(TextDiff::from_lines(ob, nb)),
+                            CapEntry::TextChars => finish!(TextDiff::from_chars(ob, nb)),
+                            #[cfg(feature = "unicode")]
+                            CapEntry::TextUnicodeWords => finish!(TextDiff::from_unicode_words(ob, nb)),
+                            #[cfg(feature = "unicode")]
+                            CapEntry::TextGraphemes => finish!(TextDiff::from_graphemes(ob, nb)),
+                            _ => finish!(TextDiff::from_words(ob, nb)),
+                        },
                         CapEntry::TextLines => finish!(cfg.diff_lines(ob, nb)),
                         CapEntry::TextWords => finish!(cfg.diff_words(ob, nb)),
                         CapEntry::TextChars => finish!(cfg.diff_chars(ob, nb)),
@@ -238,6 +250,15 @@ pub fn cap_run(case: &Case, deadline: bool, sched: Sched) -> Result<CapOut, Stri
                 } else {
                     let (os, ns) = (ot.as_str(), nt.as_str());
                     match case.entry {
+                        _ if shortcut => match case.entry {
+                            CapEntry::TextLines => finish!(TextDiff::from_lines(os, ns)),
+                            CapEntry::TextChars => finish!(TextDiff::from_chars(os, ns)),
+                            #[cfg(feature = "unicode")]
+                            CapEntry::TextUnicodeWords => finish!(TextDiff::from_unicode_words(os, ns)),
+                            #[cfg(feature = "unicode")]
+                            CapEntry::TextGraphemes => finish!(TextDiff::from_graphemes(os, ns)),
+                            _ => finish!(TextDiff::from_words(os, ns)),
+                        },
                         CapEntry::TextLines => finish!(cfg.diff_lines(os, ns)),
                         CapEntry::TextWords => finish!(cfg.diff_words(os, ns)),
                         CapEntry::TextChars => finish!(cfg.diff_chars(os, ns)),
